@@ -75,6 +75,12 @@ def gen_call(rnd, sig, malformed=.12):
         po = [p for p in sig if p[1] == 'PosOnly']
         if po: kws.append([rnd.choice(po)[0], gen_value(rnd)])   # the inspect-vs-call corner
     rnd.shuffle(kws)
+    if has_kw:
+        # a keyword that is spelled like the **kwargs parameter itself (or like the *args parameter): a valid call, the keyword lands in
+        # the dictionary. Decided from the call generated so far, without drawing (the streams of all families stay as they were)
+        k = (npos * 7 + len(kws) * 3 + len(sig)) % 11
+        if k == 0: kws.append([next(p[0] for p in sig if p[1] == 'VarKw'), {'i': 7}])
+        elif k == 1 and has_var: kws.append([next(p[0] for p in sig if p[1] == 'VarPos'), {'i': -7}])
     return args, kws
 
 
